@@ -6,6 +6,7 @@
     three chains, each call under a watchdog. (T) Trace_Lifecycle validates the recorded traces."""
 import random
 
+import c10
 import vlib
 
 META = {
@@ -65,6 +66,9 @@ def to_script(rng, kinds, seq, prefix):
             steps.append({"a": "rrtcp", "s": 1, "kind": "nack", "nums": [st["w"]], "id": st["id"], "fail": False})
         elif a == "wait":
             steps.append({"a": "wait", "ms": 6})
+        elif a == "failw":
+            steps.append({"a": "failw", "ms": 1})
+            steps.append({"a": "wait", "ms": 4})
         elif a == "unbindl":
             steps.append({"a": "unbindl", "s": 1})
             steps.append({"a": "wait", "ms": 6})
@@ -98,7 +102,8 @@ def run_batch(ctx, scripts, tag):
                           race=False, go_timeout=2400)
 
 
-PREFIXES = [[], ["bindw", "bindr", "bindl", "bindm", "tl", "tm", "tm"], ["bindw", "bindm", "tm", "tm", "wait"]]
+PREFIXES = [[], ["bindw", "bindr", "bindl", "bindm", "tl", "tm", "tm"], ["bindw", "bindm", "tm", "tm", "wait"],
+            ["bindw", "bindr", "bindl", "bindm", "tm", "tm", "failw", "tm", "tm", "wait", "tm", "tl"]]
 
 
 def run(ctx):
@@ -125,6 +130,22 @@ def run(ctx):
     chunk = 700
     for i in range(0, len(scripts), chunk):
         run_batch(ctx, scripts[i:i + chunk], "G-lifecycle-%d" % (i // chunk))
+    # Close placed mid-traffic from another goroutine (programs of Gen_Conc that contain the close role), call results
+    # validated by Trace_Conc
+    progs = [["close", r] for r in ("w1a", "r2a", "c1", "c2", "cw")] + [["close", "w1a", "c1"], ["close", "r2a", "c2"]]
+    racing = []
+    for kinds in targets:
+        for roles in (progs if not ctx.quick else rng.sample(progs, 2)):
+            racing.append(c10.script(rng, kinds, roles, 120))
+        if {"cc", "ccleaky"} & set(kinds):      # Close racing with feedback being fed to the bandwidth estimator
+            for _ in range(4 if ctx.quick else 20):
+                for roles in (["close", "c1"], ["close", "c2"], ["close", "c1", "c2"]):
+                    racing.append(c10.script(rng, kinds, roles, 400))
+    for i in range(0, len(racing), 60):
+        vlib.run_batch(ctx, tag="G-close-racing-%d" % (i // 60), scripts=racing[i:i + 60], pkg_rel="", pkgname="interceptor_test",
+                       files=["zz_verif_univ_test.go", "common:zz_verif_pkt_test.go.tpl"], test="TestVerifUnivExec",
+                       trace_module="Trace_Conc.tla", nontrivial=lambda evs: True, race=False, go_timeout=2400,
+                       culprit_hint=vlib.univ_culprit_hint)
     ctx.assumptions += ["a call that has not returned after 2 s is blocked (its goroutine stack is stored in the replay)",
                         "reads on twcc/rfc8888 senders before BindRTCPWriter are not generated (they wait for the loop by design)"]
     return vlib.finish(ctx, "model_checking", RULE)
